@@ -129,7 +129,15 @@ func (s *Server) serve(ctx context.Context, listener net.Listener, handler Modbu
 		s.OnServeFunc(listener.Addr())
 	}
 
+	s.mu.Lock()
+	if s.isShutdown.Load() {
+		// Shutdown was called before the listener was registered
+		s.mu.Unlock()
+		_ = listener.Close()
+		return ErrServerClosed
+	}
 	s.listener = listener
+	s.mu.Unlock()
 	l := onceCloseListener{Listener: listener}
 	defer l.Close()
 	// Accept does not observe the context: close the listener when the context ends
@@ -299,7 +307,10 @@ func (s *Server) Shutdown(ctx context.Context) error {
 	defer s.mu.Unlock()
 	s.isShutdown.Store(true)
 
-	err := s.listener.Close()
+	var err error
+	if s.listener != nil {
+		err = s.listener.Close()
+	}
 
 	timer := time.NewTimer(50 * time.Millisecond)
 	defer timer.Stop()
